@@ -43,6 +43,8 @@ def run(ctx):
         ctx.obligations.append(dict(name="Props/C03 theorems", ok=False, why="theorem list missing"))
     kvh = C.build_harness("asan")
     rng = ctx.rng
+    udiffs = C.unit_correspondence(ctx, kvh, C.gen_ops("gen_misc.py", ctx.seed, 400 if ctx.quick else 4000, prefixes=("sort_len_name", "cmp_len_name", "essential_check", "essential_check1")) +
+                                   [l.strip() for l in open(os.path.join(C.CORPUS, "ops_misc.txt")) if l.startswith(("sort_len_name", "cmp_len_name", "essential_check"))], "canon")
     diffs = []
     groups = []
     for i in range(14 if ctx.quick else 120):
@@ -113,7 +115,8 @@ def run(ctx):
     if diffs and not fails:
         ctx.violation("hook-observed canonical order / guide tree depends on the input order (%d cases) but no alignment difference was found" % len(diffs),
                       dict(kind="correspondence", broken="CANON/TASKS observation", first=diffs[:3]), no_input=True)
-    if not ok and not fails and not diffs:
+    C.report_diffs(ctx, udiffs, fails, "sort_by_len_name / kalign_essential_input_check")
+    if not ok and not fails and not diffs and not udiffs:
         ctx.violation("proof obligations of C03 no longer check", dict(kind="proof", broken=[o for o in ctx.obligations if not o["ok"]],
                                                                         log=getattr(ctx, "build_errors", "")[-3000:]), no_input=True)
     return ctx.finish(LEVEL, CHECKER)
